@@ -163,4 +163,11 @@ PROPS = {
         "rule": "leveldb.DB and SerialDB, batch sizes 1-4: (1) forced schedules over 2-3 goroutines parked at every block boundary (verifPoint hooks) and replayed on the Lean block-interleaving model; (2) window probes: one operation parked at a hook (incl. inside the flush hand-over and between the batch reads) while probes run, history checked by porcupine; (3) randomised stress with delay injection at the hooks, checked by porcupine; distinct = distinct (operation kind, output) pairs",
         "assumptions": ["the all-schedules theorem is about the block-interleaving model (critical sections as atomic blocks, block structure tied to the source by regenerated facts and by forced schedules); Go memory-model races inside a block, fairness and goleveldb's internal concurrency are outside the model", "porcupine (linearizability checker) is a search aid for failing inputs, not a proof"],
     },
+    "C10": {
+        "theorems": [],
+        "modules": ["SV.Props.C10"],
+        "runs": [{"component": "crash", "thorough_seeds": 2}],
+        "rule": "workloads of Put/Remove/tick/Close/reopen on leveldb.DB and SerialDB (batch sizes 1-5) over a recording goleveldb storage; at EVERY storage event (create/write/sync/setmeta/remove/rename) during a call and at every operation boundary crash images are materialised (unsynced tail none / torn at a random byte / all), reopened with the unmodified constructors and dumped by RangeKeys; the Lean model decides whether each recovered map is an allowed flush boundary; distinct = distinct (operation kind, output) pairs",
+        "assumptions": ["that goleveldb applies a synced batch atomically and recovers it from a torn journal is observed on the sampled crash images, not proved", "that the timer fires within BatchDelaySeconds and kernel fsync semantics are outside the model", "Sync:true on every LevelDB write is a regenerated fact"],
+    },
 }
